@@ -7,7 +7,7 @@ EXTENDS DrEngine, Json
 
 Emit ==
     phase = "done" =>
-        PrintT(<<"CASE", ToJson([prog |-> prog, ss |-> ss, mode |-> mode, att |-> att])>>)
+        PrintT(<<"CASE", ToJson([prog |-> prog, ss |-> ss, mode |-> mode, arch |-> arch, att |-> att])>>)
 
 NonOpt(L) == {it \in Items(L) : it.t # "opt"}
 OptIt(L)  == {it \in Items(L) : it.t = "opt"}
